@@ -208,6 +208,53 @@ def check_deep(case, acc):
     acc.tag("deep_tree_cases")
 
 
+def check_deep_bushy(case, acc):
+    """The downward-recursive attributes on a deep AND bushy tree (every spine node has a leaf as first child and the next
+    spine node as second): the interpreter's recursion limit is a legitimate way out (RecursionError), a wrong value or a
+    wrong order is not."""
+    import sys
+
+    make = nodes.factory(case["cls"])
+    depth = int(case["factor"] * sys.getrecursionlimit())
+    spine = [make(0)]
+    leaves = []
+    for i in range(1, depth):
+        leaf = make(100000 + i)
+        leaf.parent = spine[-1]
+        leaves.append(leaf)
+        node = make(i)
+        node.parent = spine[-1]
+        spine.append(node)
+    labels = forest.Labels(spine + leaves)
+    for start_index in (0, depth // 3):
+        start = spine[start_index]
+        pre, stack = [], [start]
+        while stack:
+            cur = stack.pop()
+            pre.append(cur)
+            stack.extend(reversed(cur.children))
+        expect = {
+            "height": depth - 1 - start_index,
+            "size": len(pre),
+            "descendants": pre[1:],
+            "leaves": [n for n in pre if not n.children],
+        }
+        for key, want in expect.items():
+            try:
+                got = getattr(start, key)
+            except RecursionError:
+                acc.tag("deep_bushy_attribute_ended_in_RecursionError")
+                continue
+            if isinstance(want, int):
+                if got != want:
+                    raise Violation(key, "deep bushy tree (%d levels, %.1f x the recursion limit), node %d: %s = %r, by definition %r" % (depth, case["factor"], start_index, key, got, want))
+            elif not refs.same_seq(list(got), want):
+                first = next((i for i, (a, b) in enumerate(zip(got, want)) if a is not b), min(len(got), len(want)))
+                raise Violation(key, "deep bushy tree (%d levels, %.1f x the recursion limit), node %d: %s has %d entries (definition: %d), first difference at %d" % (depth, case["factor"], start_index, key, len(got), len(want), first))
+    acc.nontrivial(True)
+    acc.tag("deep_bushy_cases")
+
+
 def check_hooked(case, acc):
     """The attributes right after a call during which a hook of the moving node edited the tree itself (it detached a sibling):
     'computed from the current links, correct immediately after any mutation' includes mutations made by hooks."""
@@ -265,6 +312,8 @@ def check_case(case, acc):
         return check_hooked(case, acc)
     if case["kind"] == "deep":
         return check_deep(case, acc)
+    if case["kind"] == "deep-bushy":
+        return check_deep_bushy(case, acc)
     if case["kind"] == "wide":
         return check_wide(case, acc)
     make = nodes.factory(case["cls"])
@@ -354,6 +403,7 @@ def plan(tier, seed):
     tasks += [{"engine": "hooked", "cls": cls, "n": n} for cls in ("HNM", "HLM") for n in (3, 4)]
     tasks += [{"engine": "wide", "width": w, "cls": c, "via": v} for w in ((300, 700) if tier == "quick" else (257, 300, 700, 2000)) for c, v in (("Node", "parent"), ("SlotLM", "children"), ("AnyNode", "children"))]
     tasks += [{"engine": "deep", "depth": d, "cls": c} for d in ((700, 1500) if tier == "quick" else (300, 700, 1500, 3000)) for c in ("Node", "SlotLM", "AnyNode")]
+    tasks += [{"engine": "deep-bushy", "factor": f, "cls": c} for f in ((0.6, 1.3) if tier == "quick" else (0.3, 0.6, 0.9, 1.3, 2.5)) for c in ("Node", "SlotLM")]
     return tasks
 
 
@@ -368,6 +418,12 @@ def run_task(task, acc):
         return acc.run_enum(check_case, _sparse_chain_cases())
     if task["engine"] == "wide":
         case = {"kind": "wide", "width": task["width"], "cls": task["cls"], "via": task["via"]}
+        exc = acc.evaluate(check_case, case, enumerated=False)
+        if exc is not None:
+            acc.add_violation(case, exc)
+        return
+    if task["engine"] == "deep-bushy":
+        case = {"kind": "deep-bushy", "factor": task["factor"], "cls": task["cls"]}
         exc = acc.evaluate(check_case, case, enumerated=False)
         if exc is not None:
             acc.add_violation(case, exc)
